@@ -62,8 +62,12 @@ func addHookOverlays(ov map[string][]byte, redirect map[string]string, harnessPk
 		rel := strings.TrimPrefix(strings.TrimPrefix(h.pkgPath, repoMod), "/")
 		dir := filepath.Join(repoDir, rel)
 		h.hookVar = "VhHook_" + h.recv + "_" + h.name
-		if err := hookOneFunc(ov, dir, h); err != nil {
+		hooked, err := hookOneFunc(ov, dir, h)
+		if err != nil {
 			return "", err
+		}
+		if !hooked {
+			continue
 		}
 		if h.pkgPath == harnessPkgPath {
 			inits = append(inits, fmt.Sprintf("\t%s = %s", h.hookVar, h.model))
@@ -84,10 +88,10 @@ func addHookOverlays(ov map[string][]byte, redirect map[string]string, harnessPk
 	return b.String(), nil
 }
 
-func hookOneFunc(ov map[string][]byte, dir string, h hookInfo) error {
+func hookOneFunc(ov map[string][]byte, dir string, h hookInfo) (bool, error) {
 	ents, err := os.ReadDir(dir)
 	if err != nil {
-		return err
+		return false, err
 	}
 	for _, e := range ents {
 		n := e.Name()
@@ -109,8 +113,11 @@ func hookOneFunc(ov map[string][]byte, dir string, h hookInfo) error {
 		}
 		for _, d := range f.Decls {
 			fd, ok := d.(*ast.FuncDecl)
-			if !ok || fd.Name.Name != h.name || fd.Body == nil {
+			if !ok || fd.Name.Name != h.name {
 				continue
+			}
+			if fd.Body == nil {
+				return false, nil // implemented in assembly: cannot be substituted natively, the real one runs
 			}
 			recvName, recvType := "", ""
 			if fd.Recv != nil && len(fd.Recv.List) == 1 {
@@ -201,10 +208,10 @@ func hookOneFunc(ov map[string][]byte, dir string, h hookInfo) error {
 				txt = strings.Replace(txt, ")\n\t\treturn\n\t}\n\t"+ret, ")\n\t}\n\t"+ret, 1)
 			}
 			ov[path] = []byte(txt)
-			return nil
+			return true, nil
 		}
 	}
-	return fmt.Errorf("redirected function %s.%s not found in %s", h.recv, h.name, dir)
+	return false, fmt.Errorf("redirected function %s.%s not found in %s", h.recv, h.name, dir)
 }
 
 func exprText(fset *token.FileSet, e ast.Expr) string {
